@@ -229,6 +229,20 @@ PROPS = {
         floors={"any": {"labels:filter_repeat_transform": 150, "pixels_affine_exact": 1000000, "pixels_projective": 100000, "pixels_affine_convolution": 200000, "samples_on_a_boundary": 20000}},
         assumptions=["reference sampler harness/mon_c08.c written from the statement and rounding.txt", "wide (10-bit/float) sources are not sampled here (C10 covers their codecs)"],
     ),
+    "C09": dict(
+        level="exploration", monitors={"mon_c09": {"sources": ["mon_c09.c", "vf_req.c", "ref_pixel.c", "ref_ops.c", "vf.c"]}},
+        runs=[dict(name="default", monitor="mon_c09", flavour="plain", cases={"quick": 48000, "thorough": 3000000}),
+              dict(name="general-only", monitor="mon_c09", flavour="plain", config="general-only", env=GENERAL_ONLY, cases={"quick": 16000, "thorough": 1000000}),
+              dict(name="wholeops", monitor="mon_c09", flavour="plain", config="wholeops", env={"PIXMAN_DISABLE": "wholeops"}, cases={"quick": 16000, "thorough": 1000000}),
+              dict(name="asan", monitor="mon_c09", flavour="asan", cases={"quick": 5000, "thorough": 150000})],
+        rule="case = (operator = index mod 53, role = source/mask/destination) on a random narrow-format request (transforms incl. projective, NEAREST/BILINEAR, all repeats, clips, offsets that put part of the request outside a REPEAT_NONE source); "
+             "the image in that role is rebuilt with the same opaque content in 2..3 presentations: {x8r8g8b8 with noisy x bits, a8r8g8b8 with alpha 255}, {r5g6b5, x8r8g8b8 holding the replicated values, a8r8g8b8(255)}, "
+             "{solid fill, 1x1 repeating x8r8g8b8, 1x1 repeating a8r8g8b8(255)}; all presentations must give the same defined destination bits (RGB only for the destination role); "
+             "bit-exact for operators evaluated in the integer pipeline, +-1 code value for operators of the floating-point class (an opaque-recognised presentation may be strength-reduced to an integer operator); "
+             "evaluations = destination pixels compared; a cell = (operator, role, presentation group, transform/filter/repeat, cover, destination format)",
+        floors={"any": {"labels:op_role_group": 300, "groups": 50000}},
+        assumptions=["metamorphic oracle: agreement between presentations, not an absolute reference (C01/C08 give those)"],
+    ),
 }
 
 # ---------------------------------------------------------------- MANIFEST texts
@@ -292,6 +306,11 @@ MANIFEST_TEXT["C08"] = dict(
     technique="reference-model runtime monitor: exact-arithmetic sampling positions, bit-exact nearest/bilinear reference, kernel-alignment reference for convolutions, under 4 implementation chains",
     level_text="Exploration: 10^6..10^8 destination pixels of transformed OP_SRC composites compared with an independent sampler: bit-exact for affine nearest/bilinear, +-1 code value for convolutions, admissible-position window for projective transforms.",
     level_note="trusted: the sampler in harness/mon_c08.c; codec from ref_pixel.c")
+
+MANIFEST_TEXT["C09"] = dict(
+    technique="metamorphic runtime monitor: identical opaque content in different presentations (alpha-less / alpha=255 / 565 / solid / 1x1 repeat) as source, mask or destination must give the same picture; 3 implementation chains",
+    level_text="Exploration: 10^5..5*10^6 request groups over all 53 operators x 3 roles x presentation groups x transforms/filters/repeats, exercising every opacity-driven operator reduction and IS_OPAQUE/SAMPLES_OPAQUE promotion; pixel-exact comparison (one code value for float-class operators).",
+    level_note="trusted: the content painter in harness/mon_c09.c; comparison on defined destination bits")
 
 NOT_CLAIMED = {p: "monitor not built yet in this round (design in DESIGN.md section 6); no claim is made" for p in
                ["C%02d" % i for i in range(1, 21)]}
